@@ -79,15 +79,24 @@ def build(fc, source, tmp):
         cells = numpy.array([e[0] for e in evs])
         k = numpy.array([e[1] for e in evs])
         lons, lats = fixtures.events_in_cells(reg, cells, None, frac=numpy.full((len(evs), 2), 0.5))
-        return fixtures.catalog(lons, lats, mags[k] + 0.03, region=reg, catalog_id=cid, name=name)
+        mv = mags[k] + 0.03
+        # the last magnitude bin is open-ended: every other last-bin event lies far above the last edge
+        far = (k == fc["nmag"] - 1) & ((numpy.arange(len(evs)) + cells) % 2 == 0)
+        mv = numpy.where(far, mags[-1] + 2.35, mv)
+        return fixtures.catalog(lons, lats, mv, region=reg, catalog_id=cid, name=name)
     cats = [mk(evs, j) for j, evs in enumerate(fc["cats"])]
     if source == "memory":
         f = CatalogForecast(catalogs=cats, region=reg, n_cat=len(cats), name="cf")
     else:
         path = os.path.join(tmp, "fc_%s.csv" % source)
         rows = [[(e[0].decode(), int(e[1]), float(e[2]), float(e[3]), float(e[4]), float(e[5])) for e in c.catalog.tolist()] for c in cats]
+        kw = {}
+        if source == "file_filtered":
+            # the file holds extra events below the magnitude threshold; the forecast is configured to filter them on every pass
+            rows = [r_ + [("x%d_%d" % (j, q), e[1] + 1, e[2], e[3], e[4], 4.2) for q, e in enumerate(r_[:2])] for j, r_ in enumerate(rows)]
+            kw = {"filters": ["magnitude >= 4.95"], "apply_filters": True}
         c12.write_file(path, rows, [True] * len(rows), True, "frac")
-        f = csep.load_catalog_forecast(path, region=reg, store=(source == "file_store"), name="cf")
+        f = csep.load_catalog_forecast(path, region=reg, store=(source == "file_store"), name="cf", **kw)
     return f, mk(fc["obs"], name="obs"), reg, mags
 
 
@@ -275,14 +284,16 @@ def _run(ctx, fc, source, seed, tmp, rc, ce):
     union = sum(G).sum(axis=0)
     n_u = float(union.sum())
     obs_h = O.sum(axis=0)
-    for nm, fn in (("M", ce.magnitude_test), ("RM", ce.resampled_magnitude_test), ("MLL", ce.MLL_magnitude_test)):
+    for nm, fn in (("M", ce.magnitude_test), ("RM", ce.resampled_magnitude_test), ("MLL", ce.MLL_magnitude_test), ("MLLfull", ce.MLL_magnitude_test)):
         f, obs, reg, mags = fresh()
         kw = {"verbose": False}
         if nm != "M":
             kw["seed"] = seed
+        if nm == "MLLfull":
+            kw["full_calculation"] = True
         with simlog.RngLog() as rl:
             ok, res, tb = ctx.call(fn, f, obs, **kw)
-        ctx.mon("e2e:" + nm, 1)
+        ctx.mon("e2e:" + nm.replace("full", ""), 1)
         t2 = dict(tags, test=nm)
         if not ok:
             ctx.violate("%s-test raised" % nm, rc, observed=repr(res), tb=tb, tags=dict(t2, clause="raised", exc=type(res).__name__))
@@ -375,7 +386,7 @@ def run(ctx):
     for j in range(n):
         r = ctx.rng("c10", j)
         fc = gen(r, empty_mode=[None, None, None, "some", "all"][j % 5] if j % 7 else "some")
-        src = ["memory", "memory", "file_store", "file_nostore"][j % 4]
+        src = ["memory", "file_filtered", "file_store", "file_nostore", "memory", "file_filtered"][j % 6]
         ex_case(ctx, fc, src, seed=int(r.integers(0, 10 ** 6)))
         if j % 40 == 0:
             ctx.sample({"cells": fc["nx"] * fc["ny"], "mags": fc["nmag"], "synthetic_sizes": [len(c) for c in fc["cats"]][:12], "observed": fc["obs_mode"],
